@@ -17,6 +17,7 @@ import (
 // lookup takes to return is measured.  All items of a case run in parallel on their own managers.
 type dlItem struct {
 	FtMs      int64  `json:"ft_ms"`
+	FtUs      int64  `json:"ft_us"`  // when > 0: the fetch timeout in microseconds (FtMs is then its value rounded up to a millisecond)
 	Caller    string `json:"caller"` // none | deadline | cancel
 	CallerMs  int64  `json:"caller_ms"`
 	DeliverMs int64  `json:"deliver_ms"` // -1: never delivered
@@ -48,8 +49,12 @@ func init() {
 			go func(i int) {
 				defer wg.Done()
 				it := c.Items[i]
+				ft := time.Duration(it.FtMs) * time.Millisecond
+				if it.FtUs > 0 {
+					ft = time.Duration(it.FtUs) * time.Microsecond
+				}
 				cfg := manager.VerifBootstrap("default", "cluster.local", &v3core.Node{Id: "dl"}, &manager.XDSServerConfig{
-					SvrAddr: "fake", SvrName: "fake", NDSNotRequired: true, LDSNotRequired: true, FetchXDSTimeout: time.Duration(it.FtMs) * time.Millisecond,
+					SvrAddr: "fake", SvrName: "fake", NDSNotRequired: true, LDSNotRequired: true, FetchXDSTimeout: ft,
 				})
 				m, err := manager.VerifNewManager(cfg, newFakeADS(), true)
 				if err != nil {
